@@ -48,7 +48,7 @@ func (Val) Method(next func()) { next() }
 type Ptr struct{ n int }
 
 //go:noinline
-func (p *Ptr) Method(next func()) { p.n++; next() }
+func (p *Ptr) Method(next func()) { _ = p.n; next() }
 
 //go:noinline
 func Generic[T any](next func()) {
